@@ -178,6 +178,16 @@ func runC17(c *Ctx) {
 				}
 				return "", nil, false
 			}
+			if fn, isFn := strip(pth.resolve(cl.Call.Value)).(*ssa.Function); isFn && strings.HasSuffix(fn.Name(), "$thunk") && len(cl.Call.Args) == 2 {
+				// a method expression (net.PacketConn.SetReadDeadline) passed down as a function value
+				n := strings.TrimSuffix(fn.Name(), "$thunk")
+				if i := strings.LastIndex(n, "."); i >= 0 {
+					n = n[i+1:]
+				}
+				if strings.HasPrefix(n, "Set") && strings.HasSuffix(n, "Deadline") && isConnVal(pth, cl.Call.Args[0]) {
+					return n, pth.resolve(cl.Call.Args[1]), true
+				}
+			}
 			if mc, isMc := strip(pth.resolve(cl.Call.Value)).(*ssa.MakeClosure); isMc {
 				if bf, _ := mc.Fn.(*ssa.Function); bf != nil && strings.HasSuffix(bf.Name(), "$bound") && len(mc.Bindings) == 1 && len(cl.Call.Args) == 1 {
 					n := strings.TrimSuffix(bf.Name(), "$bound")
@@ -287,19 +297,39 @@ func runC17(c *Ctx) {
 			continue
 		}
 		o.Site(restore.Pos(), "restore %s(zero)", setName)
-		// wg.Done is deferred at entry
+		// the completion signal: wg.Done() awaited by wg.Wait(), or the close of a channel of its own that the
+		// caller receives from
+		exitRole := ""
+		instrsOfU(W, func(in ssa.Instruction) {
+			if ci, ok := in.(ssa.CallInstruction); ok && callName(ci) == "builtin.close" {
+				if role := chanRole(ci.Common().Args[0]); role != "var done" && strings.HasPrefix(role, "var ") {
+					exitRole = role
+				}
+			}
+		})
+		isSignal := func(in ssa.Instruction) bool {
+			ci, ok := in.(ssa.CallInstruction)
+			if !ok {
+				return false
+			}
+			if callName(ci) == "(*sync.WaitGroup).Done" {
+				return true
+			}
+			return exitRole != "" && callName(ci) == "builtin.close" && chanRole(ci.Common().Args[0]) == exitRole
+		}
+		// the signal is deferred at entry
 		okDone := false
 		for _, in := range W.Blocks[0].Instrs {
-			if d, ok := in.(*ssa.Defer); ok && callName(d) == "(*sync.WaitGroup).Done" {
+			if d, ok := in.(*ssa.Defer); ok && isSignal(d) {
 				okDone = true
 			}
 		}
 		if !okDone {
-			// or an explicit Done after restore on every path
-			if ok, _ := mustPassU(entryPos(W), isReturn, func(in ssa.Instruction) bool { return isCall(in, "(*sync.WaitGroup).Done") }); !ok {
+			// or an explicit signal after restore on every path
+			if ok, _ := mustPassU(entryPos(W), isReturn, func(in ssa.Instruction) bool { _, isC := in.(*ssa.Call); return isC && isSignal(in) }); !ok {
 				o.Fail(W.Pos(), "the watcher does not signal its completion on every path (wg.Wait would block forever or return early)")
 			}
-			for _, in := range findU(W, func(in ssa.Instruction) bool { return isPlainCall(in, "(*sync.WaitGroup).Done") }) {
+			for _, in := range findU(W, func(in ssa.Instruction) bool { _, isC := in.(*ssa.Call); return isC && isSignal(in) }) {
 				if canReach(posAfter(in), restore, nil) {
 					o.Fail(in.Pos(), "the watcher signals completion before the deadline is restored")
 				}
@@ -311,7 +341,13 @@ func runC17(c *Ctx) {
 		isClose := func(in ssa.Instruction) bool {
 			return isCall(in, "builtin.close") && chanRole(in.(ssa.CallInstruction).Common().Args[0]) == "var done"
 		}
-		isWait := func(in ssa.Instruction) bool { return isPlainCall(in, "(*sync.WaitGroup).Wait") }
+		isWait := func(in ssa.Instruction) bool {
+			if isPlainCall(in, "(*sync.WaitGroup).Wait") {
+				return true
+			}
+			u, ok := in.(*ssa.UnOp)
+			return ok && u.Op == token.ARROW && exitRole != "" && chanRole(u.X) == exitRole && in.Parent() != W
+		}
 		o.Site(s.IO.Pos(), "I/O call %s", s.IO.Call.Method.Name())
 		if ok, bad := mustPassU(posAfter(s.IO), isReturn, isClose); !ok {
 			o.Fail(bad.Pos(), "a return is reachable after the I/O without close(done): the watcher is never released")
@@ -343,7 +379,7 @@ func runC17(c *Ctx) {
 					okAdd = true
 				}
 			}
-			if !okAdd {
+			if !okAdd && exitRole == "" {
 				o.Fail(g.Pos(), "the watcher is started without wg.Add before it")
 			}
 			if !domU(g, s.IO) {
